@@ -1,9 +1,15 @@
 use std::fmt::{Debug, Formatter};
 use std::io;
+#[cfg(not(feature = "verif-hooks"))]
 use std::sync::{Arc, RwLock};
+#[cfg(feature = "verif-hooks")]
+use crate::verif_hooks::sync::{Arc, RwLock};
 use std::thread::panicking;
+#[cfg(not(feature = "verif-hooks"))]
 #[cfg(not(target_arch = "wasm32"))]
 use std::time::Instant;
+#[cfg(feature = "verif-hooks")]
+use crate::verif_hooks::Instant;
 
 use crate::draw_target::{
     visual_line_count, DrawState, DrawStateWrapper, LineAdjust, LineType, ProgressDrawTarget,
